@@ -5,6 +5,7 @@ package main
 import (
 	"fmt"
 	"go/token"
+	"sort"
 	"strings"
 
 	"golang.org/x/tools/go/ssa"
@@ -22,6 +23,7 @@ func ruleEnsure(c *Ctx) {
 	}
 	l := c.L
 	const field = "EnsurePathExistsOnAdd"
+	b.shrinkingBounds(l)
 	ai := b.findApply()
 	ep := b.roleFn("ensurePathExists")
 	if ai == nil || ai.handlers["add"] == nil || ep == nil {
@@ -315,5 +317,111 @@ func ruleEnsure(c *Ctx) {
 				l.add("R-ENSURE", "v5", key, b.posOf(iff), Violated, "the index parse does not dominate the padding loop", true)
 			}
 		}
+	}
+}
+
+// shrinkingBounds (R-ENSURE viii): a counted loop that pads a collection must not measure
+// the collection again in its own bound. `for i := 0; i < n-len(xs); i++ { xs = append(xs, …) }`
+// counts every element twice — once in i, once in len(xs) — and stops half way: an array
+// padded this way is about half as long as the addressed index needs. (A bound that grows
+// with the collection, `i < len(queue)`, is a work list and is not reported.)
+func (b *Body) shrinkingBounds(l *Ledger) {
+	n := 0
+	var bad []string
+	var badPos string
+	for _, fn := range b.srcFuncs(b.Lib) {
+		for _, h := range fn.Blocks {
+			if !isLoopHeader(h) {
+				continue
+			}
+			body := naturalLoop(h)
+			for bb := range body {
+				iff, ok := lastInstr(bb).(*ssa.If)
+				if !ok {
+					continue
+				}
+				exits := false
+				for _, s := range bb.Succs {
+					if !body[s] {
+						exits = true
+					}
+				}
+				bo, ok := iff.Cond.(*ssa.BinOp)
+				if !ok || !exits {
+					continue
+				}
+				switch bo.Op {
+				case token.LSS, token.LEQ, token.GTR, token.GEQ, token.NEQ:
+				default:
+					continue
+				}
+				n++
+				// a len() with a negative sign inside the bound, evaluated inside the loop, of a
+				// location the loop stores to
+				var walk func(v ssa.Value, neg bool, d int)
+				walk = func(v ssa.Value, neg bool, d int) {
+					if d > 6 {
+						return
+					}
+					switch x := v.(type) {
+					case *ssa.BinOp:
+						switch x.Op {
+						case token.SUB:
+							walk(x.X, neg, d+1)
+							walk(x.Y, !neg, d+1)
+						case token.ADD:
+							walk(x.X, neg, d+1)
+							walk(x.Y, neg, d+1)
+						}
+					case *ssa.Convert:
+						walk(x.X, neg, d+1)
+					case *ssa.Call:
+						arg, isLen := lenArg(x)
+						if !isLen || !neg || !body[x.Block()] {
+							return
+						}
+						ld, ok := arg.(*ssa.UnOp)
+						if !ok || ld.Op != token.MUL || !body[ld.Block()] {
+							return
+						}
+						// a store to the same location inside the loop
+						for sb := range body {
+							for _, ins := range sb.Instrs {
+								st, ok := ins.(*ssa.Store)
+								if !ok {
+									continue
+								}
+								same := st.Addr == ld.X
+								if fa1, ok1 := st.Addr.(*ssa.FieldAddr); ok1 {
+									if fa2, ok2 := ld.X.(*ssa.FieldAddr); ok2 && fa1.X == fa2.X && fa1.Field == fa2.Field {
+										same = true
+									}
+								}
+								if same {
+									bad = append(bad, fmt.Sprintf("%s: the loop condition at %s subtracts len() of a collection that the loop itself grows at %s", fname(fn), b.posOf(iff), b.posOf(st)))
+									badPos = b.posOf(iff)
+								}
+							}
+						}
+					}
+				}
+				// which side is the bound: both are walked with the sign they have in `i < bound`
+				switch bo.Op {
+				case token.LSS, token.LEQ, token.NEQ:
+					walk(bo.Y, false, 0)
+					walk(bo.X, true, 0)
+				default:
+					walk(bo.X, false, 0)
+					walk(bo.Y, true, 0)
+				}
+			}
+		}
+	}
+	key := "(viii) no loop of the library shrinks its own bound by growing the collection it measures"
+	if len(bad) > 0 {
+		sort.Strings(bad)
+		l.add("R-ENSURE", "v5", key, badPos, Violated, bad[0]+": every appended element is counted twice, so the loop stops about half way — an array padded this way is shorter than the addressed index needs", true)
+	} else {
+		l.add("R-ENSURE", "v5", key, "", Discharged, fmt.Sprintf("%d loop exit condition(s) examined: none subtracts, inside the loop, the length of a collection the loop stores to", n), true)
 	}
 }
